@@ -194,3 +194,8 @@ def _r10_3(ctx):
     for m in mints:
       ctx.ob('R10.3', b.n, 'create_rune_entry is never followed by mint', not b.strictly_reaches(c.bb, m.bb) and c.bb != m.bb,
              'the entry of the rune etched by this transaction exists before its own mint is processed: an etching that names its own future id mints immediately', where(b, c.line))
+
+
+# sensitivity pack (thorough tier): each seeded edit must be reported by the named rule instance
+MUTANTS = [{'name': 'seeded-C10-a', 'patch': 'C10-a/patch.diff', 'expect': ('R10.1', 'RuneEntry::start', 'saturating_add')},
+           {'name': 'seeded-C10-b', 'patch': 'C10-b/patch.diff', 'expect': ('R10.3', 'index_runes', 'never followed by mint')}]
